@@ -450,6 +450,11 @@ func costMain(args []string) {
 		// suspect: more than 2.5x the linear ratio and not negligible, or very slow per byte
 		if (row.Ratio > 10 && t2 > 2000) || t2*1000/float64(len(s2)) > 1000 {
 			rep.Suspects = append(rep.Suspects, row)
+			if len(rep.Confirmed) >= 3 {
+				// three confirmed families are enough to report; do not spend minutes on
+				// re-timing every further family of a super-linear implementation
+				continue
+			}
 			// confirm at 4x again, min of 5 runs: a quadratic family shows ratio ~16 twice
 			s3 := build(f.prefix, f.unit, 4*n2)
 			t2b := timeIt(f.det, s2, 5)
